@@ -107,7 +107,7 @@ def step (st : DState) (line : String) : DState × String :=
     | .ok recs =>
       let (l, _, o, bs) := st.lib.stepRecords (mkEnv args) recs
       let st' := { st with lib := l, branches := bs.foldl (fun acc b => bump acc (brStr b)) st.branches }
-      (st', s!"{outStr o} | {stateStr l} | N {recs.length}")
+      (st', s!"{outStr o} | {stateStr l}")
   | ["newevent", name, mask, cookie] =>
     let (l, e) := st.eventer.newEvent (unhex name) (bv32 mask) (bv32 cookie)
     ({ st with eventer := l }, evStr e)
